@@ -75,6 +75,20 @@ def run(ctx):
         n = sum(len(x) for x in t)
         for r in {0, n, rng.randint(0, n), rng.randint(0, n), n // 2, max(0, n - 1)}:
             lines.append(tup_line(1, t, r))
+    # more than 16 sequences (std::sort switches from insertion sort to an unstable algorithm there: the sort of the (sample, sequence) pairs must really compare
+    # the pairs -- round-7 seeded change, the counterpart of C06c inside multisequence_partition): many short runs with few distinct keys, every rank
+    for i in range(12 if quick else 120):
+        m = rng.choice((17, 18, 20, 24, 33))
+        nk = rng.choice((1, 1, 2, 3))
+        if i % 2 == 0:        # singletons (and a few pairs) of very few distinct keys: no refinement round repairs a wrong initial order of the samples
+            t = [[rng.randint(1, nk)] * rng.choice((1, 1, 1, 2)) for _ in range(m)]
+        else:
+            t = [sorted(rng.randint(1, nk) for _ in range(rng.choice((1, 1, 2, 3, 5)))) for _ in range(m)]
+        lines.append(tup_line(0, t))
+    for m in (17, 18, 20, 33):          # the plain cases: m equal singletons, alternating keys, one longer run among singletons
+        lines.append(tup_line(0, [[1] for _ in range(m)]))
+        lines.append(tup_line(0, [[1 + (j % 2)] for j in range(m)]))
+        lines.append(tup_line(0, [[1, 1] if j == m // 2 else [1] for j in range(m)]))
     for ln in lines:
         ctx.count_case(ln, nontrivial=len(ln.split()) > 4)
     ctx.cov["exhaustive"] = False
